@@ -35,6 +35,12 @@ STRATA = {
     "model_select": (500, 20000),
     "altloc": (600, 24000),
 }
+# functions that must leave their arguments untouched (vf.core.PurityMonitor; '!' = the object itself is watched too)
+PURE = [
+    "biotite.structure.io.pdbx.convert:set_structure",
+    "biotite.structure.filter:filter_first_altloc",
+    "biotite.structure.filter:filter_highest_occupancy_altloc",
+]
 REQUIRED_ORACLES = ["roundtrip_fields", "roundtrip_bonds", "cross_format", "model_rows", "altloc_rows", "box_equivalent"]
 ANCHORS = [
     "biotite.structure.io.pdbx.convert:set_structure",
